@@ -1,7 +1,7 @@
 (* Extraction of the executable model and oracles.  ExtrOcamlBasic only: numbers stay
    the extracted inductives (positive / N / Z / nat). *)
 From Coq Require Import ExtrOcamlBasic ZArith.
-From ZV Require Import Str Dec Rx RegexSrc Sanitize SanitizeSpec SemVer Pep440.
+From ZV Require Import Str Dec Rx RegexSrc Sanitize SanitizeSpec SemVer Pep440 Calendar Timestamp.
 Extraction Language OCaml.
 Extraction "Extract/model.ml"
   N.div N.modulo N.add N.mul Z.add
@@ -15,4 +15,5 @@ Extraction "Extract/model.ml"
   SemVer.max_by_last SemVer.semver_check SemVer.strip_v SemVer.semver_docker
   RegexSrc.pep440_src RegexSrc.pep440_spec RegexSrc.pep440_atom_of
   Pep440.pep_parse Pep440.pep_extract Pep440.pep_print Pep440.pep_cmp Pep440.pep_eqb Pep440.pep_check
-  Pep440.pep_caps.
+  Pep440.pep_caps
+  Timestamp.resolve_timestamp Timestamp.is_valid_timestamp_pattern Calendar.dt_of_secs Timestamp.u64_as_i64.
